@@ -141,6 +141,16 @@ impl Aggregator {
     }
 
     /// Total running sessions for a topic.
+    /// Verification hook: feeds one sync event into the aggregator (the derived stream event is
+    /// crate-private, only its presence is reported).
+    #[cfg(p2panda_p2panda_verif)]
+    pub fn verif_process<E: Extensions>(
+        &mut self,
+        from_sync: FromSync<TopicLogSyncEvent<E>>,
+    ) -> bool {
+        self.process(from_sync).is_some()
+    }
+
     pub fn running_sessions(&self) -> u32 {
         self.running_sessions
     }
